@@ -135,3 +135,51 @@ Proof.
   assert (~ (eff_limit limit < Z.of_N size)%Z) by (intro H; apply limit_size_spec in H; congruence).
   lia.
 Qed.
+
+(* ---------- the decoder behind limitReader = the length comparison of the model ---------- *)
+
+Lemma scan_in_firstn s st n m :
+  scan_in s st n = Some m -> forall k, (m <= n + k)%nat -> scan_in (firstn k s) st n = Some m.
+Proof.
+  revert st n. induction s as [|c r IH]; intros st n H k Hk; [discriminate|].
+  destruct (scan_in_prefix (c :: r) st n m H) as [[Hlt _] _].
+  destruct k as [|k']; [lia|]. cbn [firstn].
+  assert (Hk' : (m <= S n + k')%nat) by lia.
+  simpl in H |- *. destruct st as [d|d|d].
+  - destruct (c =? j_quote); [now apply IH|]. destruct (j_open c); [now apply IH|].
+    destruct (j_close c); [|now apply IH]. destruct d; [exact H|now apply IH].
+  - destruct (c =? j_quote); [now apply IH|]. destruct (c =? j_bslash); now apply IH.
+  - now apply IH.
+Qed.
+
+Lemma scan_from_firstn s n m :
+  scan_from s n = Some m -> forall k, (m <= n + k)%nat -> scan_from (firstn k s) n = Some m.
+Proof.
+  revert n. induction s as [|c r IH]; intros n H k Hk; [discriminate|].
+  destruct (scan_from_prefix (c :: r) n m H) as [[Hlt _] _].
+  destruct k as [|k']; [lia|]. cbn [firstn]. simpl in H |- *.
+  destruct (j_ws c); [apply IH; [exact H|lia]|].
+  destruct (j_open c); [|discriminate]. apply scan_in_firstn; [exact H|lia].
+Qed.
+
+(* Decoding the first value of a body through limitReader succeeds exactly when the value ends
+   within the limit, and then yields the whole value: the comparison `document length <= limit`
+   of Model/Paging.v (body_fits) is what the decoder behind the reader does. *)
+Theorem scan_behind_limit body limit :
+  first_value (seen limit body) =
+  match scan body with
+  | Some m => if (Z.of_nat m <=? eff_limit limit)%Z then Some (firstn m body) else None
+  | None => None
+  end.
+Proof.
+  pose proof (eff_limit_pos limit) as Hp. unfold first_value, seen, scan.
+  set (n := Z.to_nat (eff_limit limit)).
+  destruct (scan_from body 0) as [m|] eqn:S.
+  - destruct (Z.leb_spec (Z.of_nat m) (eff_limit limit)) as [L|G].
+    + rewrite (scan_from_firstn body 0 m S n) by (unfold n; lia).
+      f_equal. rewrite firstn_firstn. f_equal. unfold n. lia.
+    + destruct (scan_from_prefix body 0 m S) as [_ P]. rewrite (P n) by (unfold n; lia). reflexivity.
+  - destruct (scan_from (firstn n body) 0) as [m|] eqn:S'; [|reflexivity].
+    exfalso. pose proof (scan_from_app (firstn n body) (skipn n body) 0 m S') as A.
+    rewrite firstn_skipn in A. congruence.
+Qed.
